@@ -53,6 +53,15 @@ pub fn replay(input: &str, output: &str) {
         let collinear = line["collinear"].as_bool().unwrap();
         let tri = line["tri"].as_i64().unwrap();
         let desc = json!({"tri": tri, "p": line["p"], "motion": line["motion"]});
+        // Frame::translation: the frame of a pure shift is the shift of the first point pair
+        if line["motion"]["n"] == 0 && line["motion"]["R"] == json!([[1, 0, 0], [0, 1, 0], [0, 0, 1]]) {
+            let f = Iso::from_na(&Frame::translation(p3(&p[0]), p3(&q[0])));
+            let (dp, dr) = lattice::iso_max_diff(&f, &m);
+            evals += 1;
+            if !(dp <= 1e-9 * (1.0 + oracle::norm(&m.t)) && dr <= 1e-12) {
+                out.put(json!({"sig": "frame3:translation-frame-differs-from-shift", "detail": format!("off by {:.3e} / {:.3e}; {}", dp, dr, line["motion"])}));
+            }
+        }
         let o = build(&p, &q);
         evals += 1;
         if collinear {
